@@ -69,12 +69,13 @@ def ladder(center, width, free):
 @st.composite
 def case_minmax(draw):
     fn = draw(st.sampled_from(['min', 'max', 'abs']))
-    eps = draw(gen.logfloat(-8, 2))
+    eps = draw(gen.logfloat(-10, 2))
     side = draw(st.sampled_from([-1.0, 1.0, 0.0]))        # which switch (0: centre of the band)
     if fn == 'abs':
         x = 0.0
     else:
         x = draw(st.one_of(gen.logfloat(-6, 6, signed=True), st.just(0.0),
+                           gen.logfloat(-2, 4, signed=True).map(lambda s: s * eps),
                            st.sampled_from([1.0, -1.0]).map(lambda s: s * eps)))
     free = draw(st.lists(st.floats(-3.0, 3.0), min_size=4, max_size=4))
     return {'fn': fn, 'eps': eps, 'x': x, 'side': side, 'free': free}
@@ -172,7 +173,7 @@ def check_minmax(case):
 @st.composite
 def case_friction(draw):
     mu = draw(gen.logfloat(-3, 2))
-    sreg = draw(gen.logfloat(-8, 2))
+    sreg = draw(gen.logfloat(-10, 2))
     theta = draw(gen.angle())
     free = draw(st.lists(st.floats(-0.99, 3.0), min_size=4, max_size=4))
     other = draw(st.lists(st.floats(-3, 3), min_size=2, max_size=2))
@@ -239,7 +240,7 @@ def check_friction(case):
 def case_ramp(draw):
     fn = draw(st.sampled_from(['zmax', 'smooth_linear']))
     if fn == 'zmax':
-        w = draw(gen.logfloat(-8, 2))
+        w = draw(gen.logfloat(-10, 2))
     else:
         w = min(draw(gen.logfloat(-8, 0)), 0.49)
     which = draw(st.sampled_from([0, 1]))
